@@ -81,7 +81,9 @@ PROPS = {
     },
     "C16": {
         "modules": ["C16", "C16Hist", "C16Run", "C09Reach", "PinC16"],
-        "streams": [{"name": "seal", "quick": 180, "thorough": 7200}],
+        "streams": [{"name": "seal", "quick": 180, "thorough": 7200},
+                    # chains fabricated just below the activation heights: a user-opened ERG/SYM pool emptied before TIP-902
+                    {"name": "activation", "quick": 60, "thorough": 2400}],
         "projection": "pools",
         "oracles": ["pools"],
     },
